@@ -502,9 +502,28 @@ func ruleAbortsImpl(fileScope func(string) bool, ruleID string, min int, onlyDef
 				// the invariant is about what reaches the construct, and nothing else reaches the helper
 				auditKey := key
 				if _, listed := auditedAborts[key]; !listed {
-					if owner := soleCaller(c, d); owner != nil {
+					owner := soleCaller(c, d)
+					if owner != nil {
 						if k2 := fmt.Sprintf("%s/%s", c.FuncName(owner), label); auditedAborts[k2] != "" {
 							auditKey = k2
+						}
+					}
+					// the construct label only tells several aborts of one function apart: a function with a single
+					// abort and a single audited entry (its own, or that of the only function that calls it) is that entry,
+					// however the test around the abort is written (switch default, else branch, nested if)
+					if _, listed := auditedAborts[auditKey]; !listed && len(abortSites(c, d)) == 1 {
+						var cands []string
+						for k := range auditedAborts {
+							if strings.HasPrefix(k, c.FuncName(d)+"/") || (owner != nil && strings.HasPrefix(k, c.FuncName(owner)+"/")) {
+								cands = append(cands, k)
+							}
+						}
+						ownerAborts := 0
+						if owner != nil {
+							ownerAborts = len(abortSites(c, owner))
+						}
+						if len(cands) == 1 && ownerAborts == 0 {
+							auditKey = cands[0]
 						}
 					}
 				}
